@@ -51,9 +51,15 @@ class Clock(i_lib.Clock):
         self._event.set()
         self._event.clear()
 
+    # Upper limit for one wait; see wait().
+    _MAX_WAIT = 1.0
+
     def wait(self):
+        # The timeout covers a stop() that lands between the test below and the
+        # call to Event.wait(): the clock thread may already have fired for the
+        # last time, and without a timeout the caller would wait forever.
         if self._keep_going:
-            self._event.wait()
+            self._event.wait(Clock._MAX_WAIT)
         return self._keep_going
 
     def pause_for(self, delay):
